@@ -324,7 +324,10 @@ impl<const BITS: usize, const LIMBS: usize> Uint<BITS, LIMBS> {
             carry = (x >> (word_bits - bits - 1)) >> 1;
         }
         r.apply_mask();
-        (r, carry != 0)
+        // Non-zero bits are lost through `carry`, through limbs moved past the
+        // end and through the mask: exactly when the shift exceeds the number
+        // of leading zeros.
+        (r, self != Self::ZERO && rhs > self.leading_zeros())
     }
 
     /// Left shift by `rhs` bits.
